@@ -375,6 +375,21 @@ class C08(Prop):
                 if rng.random() < 0.5:
                     z = -z
             yield mk('c08.bn2vch', z, tag='num')
+        # small-integer opcode helpers over their whole domain; mpi2bn on well- and ill-formed MPI strings
+        for n in part(range(256)):
+            yield mk('c08.opn.dec', n, tag='opn')
+        for z in part(list(range(-3, 21)) + [p for p in self.pool if abs(p) < 1 << 40]):
+            yield mk('c08.opn.enc', z, tag='opn')
+        for j in range(share(4000 if big else 400)):
+            n = rng.randrange(0, 9)
+            body = rng.randbytes(n)
+            if n and rng.random() < 0.4:
+                body = bytes([rng.choice((0x00, 0x80, 0x7f, 0xff))]) + body[1:]
+            size = rng.choice((n, n, n, n + 1, max(n - 1, 0), rng.randrange(1 << 32)))
+            m = size.to_bytes(4, 'big') + body
+            if rng.random() < 0.1:
+                m = m[:rng.randrange(0, 4)]
+            yield mk('c08.mpi2bn', m.hex(), tag='mpi')
         # vch2bn on arbitrary strings: every string of length <= 2, then random with 00/80 tails
         short = (bytes(t) for n in (0, 1, 2) for t in itertools.product(range(256), repeat=n))
         for s in part(short):
@@ -464,6 +479,23 @@ class C08(Prop):
                     return 'nonint:%r' % (n,)
                 return str(n)
             return guarded(f)
+        if op == 'c08.opn.enc':
+            def f():
+                r = SC.CScriptOp.encode_op_n(int(a[0]))
+                return str(int(r)) if isinstance(r, SC.CScriptOp) else 'not-a-CScriptOp'
+            return guarded(f)
+        if op == 'c08.opn.dec':
+            o = SC.CScriptOp(int(a[0]))
+
+            def g():
+                v = o.is_small_int()
+                return '1' if v is True else '0' if v is False else 'nonbool'
+            return guarded(lambda: str(o.decode_op_n())) + ' ' + guarded(g)
+        if op == 'c08.mpi2bn':
+            def f():
+                v = BN.mpi2bn(bytes.fromhex(a[0]))
+                return 'none' if v is None else str(v)
+            return guarded(f)
         if op == 'c08.bn2vch':
             return guarded(lambda: bytes(BN.bn2vch(int(a[0]))).hex())
         if op == 'c08.vch2bn':
@@ -493,7 +525,7 @@ class C08(Prop):
 
     def shrink_candidates(self, c):
         op, a, tag = c['op'], c['args'], c.get('tag', '')
-        if op in ('c08.raw', 'c08.cooked', 'c08.preds', 'c08.sigops', 'c08.vch2bn', 'c08.pushdata'):
+        if op in ('c08.raw', 'c08.cooked', 'c08.preds', 'c08.sigops', 'c08.vch2bn', 'c08.pushdata', 'c08.mpi2bn'):
             s = bytes.fromhex(a[0])
             rest = a[1:]
             for j in range(len(s)):                     # delete one byte
